@@ -306,6 +306,18 @@ def run(tier, seed):
         classify(chk, mode, rows, reported)
         rows = evaluate(chk, [(k, j, p) for j, (k, m, p) in enumerate(fam) if m == mode], "fam" + mode[:3])
         classify(chk, mode, rows, reported)
+    # outside the calculus: nested loops and forloop.parentloop (expected output computed from the loop structure)
+    for name, prog, expected, cls in U.parentloop_programs():
+        rep = []
+        o = render(prog, ctx_report=rep)
+        chk.count(json.dumps(prog, sort_keys=True), True, kind="%s/parentloop" % prog["mode"])
+        if rep and rep[0][0] != rep[0][1] and o[0] == "ok":
+            chk.fail("c03-caller-context-changed", "Template.render left the caller's Context changed", {"program": prog, "before": rep[0][0], "after": rep[0][1]})
+        if o != ("ok", expected):
+            trig = cls or "c03-%s-loop-state" % prog["mode"]
+            chk.dist["differs:" + trig] += 1
+            chk.fail(trig, "fill content / child template under nested loops does not see the loop state of its own iteration (%s)" % name,
+                     {"program": prog, "implementation": o, "expected": expected, **describe(prog)})
     for mode in ("isolated", "django"):
         cases = list(gen_cases(chk, n, mode))
         bases = [(i, p) for k, i, p in cases if k == "fresh"]
